@@ -1,6 +1,7 @@
 package sim
 
 import (
+	"testing"
 	"bufio"
 	"encoding/json"
 	"fmt"
@@ -34,9 +35,16 @@ type Prop struct {
 	// counterfactual replay; it gets a function re-running the choices with a cfg.
 	Classify func(v *Violation, rerun func(cfg map[string]string) *RunResult) string
 	Exhaustive bool
+	// DeathSig classifies the death of the worker process during a run (fatal
+	// runtime error, unrecoverable panic in a goroutine of the system under
+	// test, watchdog). Non-empty = this is a violation with that signature.
+	DeathSig func(stderrTail string, hung bool) string
 }
 
 var Registry = map[string]*Prop{}
+
+// T is the *testing.T of the hosting test binary (for testing/synctest).
+var T *testing.T
 
 // Extra sub-commands of the binary (child processes of checks).
 var Extra = map[string]func([]string) int{}
@@ -123,6 +131,27 @@ func WorkerMain(p *Prop, tier string, seed uint64, shard, nshards int, only []in
 
 func jsonStr(s string) string { b, _ := json.Marshal(s); return string(b) }
 
+// ExecuteTimeout is Execute with a watchdog: the run goes on in its goroutine if
+// it hangs (it cannot be killed), the caller gets ok=false and must stop using
+// in-process re-execution.
+func ExecuteTimeout(secs int, prop, tier string, idx int, src *Src, env interface{}, cfg map[string]string, fn RunFn, keepLog int) (*RunResult, *Ctx, bool) {
+	type out struct {
+		r *RunResult
+		c *Ctx
+	}
+	ch := make(chan out, 1)
+	go func() {
+		r, c := Execute(prop, tier, idx, src, env, cfg, fn, keepLog)
+		ch <- out{r, c}
+	}()
+	select {
+	case o := <-ch:
+		return o.r, o.c, true
+	case <-time.After(time.Duration(secs) * time.Second):
+		return nil, nil, false
+	}
+}
+
 // ---------------------------------------------------------------- batch
 
 type KnownFindings struct {
@@ -165,6 +194,7 @@ type ReplayFile struct {
 	Decoded   []string          `json:"decoded_scenario"`
 	Sample    interface{}       `json:"sample,omitempty"`
 	Env       map[string]string `json:"env"`
+	FromSeed  bool              `json:"from_seed,omitempty"` // choices are regenerated from (seed, property, run)
 	ShrinkRun int               `json:"shrink_executions"`
 	OrigLen   int               `json:"original_choice_count"`
 }
@@ -173,9 +203,32 @@ type workerOut struct {
 	results []*RunResult
 	died    int // run index during which the worker died, -1 if none
 	trouble string
+	tail    string
+	hung    bool
 }
 
-func runWorkers(self string, p *Prop, tier string, seed uint64, nshards int, lists [][]int) ([]*RunResult, []int, string) {
+type death struct {
+	idx  int
+	tail string
+	hung bool
+}
+
+type tailBuf struct {
+	mu  sync.Mutex
+	buf []byte
+}
+
+func (t *tailBuf) Write(p []byte) (int, error) {
+	t.mu.Lock()
+	defer t.mu.Unlock()
+	t.buf = append(t.buf, p...)
+	if len(t.buf) > 1<<17 {
+		t.buf = t.buf[len(t.buf)-(1<<16):]
+	}
+	return len(p), nil
+}
+
+func runWorkers(self string, p *Prop, tier string, seed uint64, nshards int, lists [][]int) ([]*RunResult, []death, string) {
 	var wg sync.WaitGroup
 	outs := make([]*workerOut, nshards)
 	perRun := time.Duration(p.MaxRunSecs) * time.Second
@@ -200,7 +253,14 @@ func runWorkers(self string, p *Prop, tier string, seed uint64, nshards int, lis
 				args = append(args, strings.Join(ss, ","))
 			}
 			cmd := exec.Command(self, args...)
-			cmd.Stderr = os.Stderr
+			tb := &tailBuf{}
+			cmd.Stderr = tb
+			defer func() {
+				o.tail = string(tb.buf)
+				if o.trouble != "" && o.died < 0 {
+					os.Stderr.Write(tb.buf)
+				}
+			}()
 			stdout, err := cmd.StdoutPipe()
 			if err != nil {
 				o.trouble = err.Error()
@@ -261,6 +321,7 @@ func runWorkers(self string, p *Prop, tier string, seed uint64, nshards int, lis
 			}
 			err = cmd.Wait()
 			if hung {
+				o.hung = true
 				o.died = cur
 				o.trouble = fmt.Sprintf("watchdog: worker %d made no progress for %v in run %d", w, perRun, cur)
 			} else if err != nil && cur >= 0 {
@@ -275,7 +336,7 @@ func runWorkers(self string, p *Prop, tier string, seed uint64, nshards int, lis
 	}
 	wg.Wait()
 	var all []*RunResult
-	var died []int
+	var died []death
 	trouble := ""
 	for _, o := range outs {
 		if o == nil {
@@ -283,7 +344,13 @@ func runWorkers(self string, p *Prop, tier string, seed uint64, nshards int, lis
 		}
 		all = append(all, o.results...)
 		if o.died >= 0 {
-			died = append(died, o.died)
+			died = append(died, death{o.died, o.tail, o.hung})
+			if p.DeathSig != nil {
+				continue // judged by the caller
+			}
+			if o.tail != "" {
+				os.Stderr.WriteString(lastLines(o.tail, 40))
+			}
 		}
 		if o.trouble != "" && trouble == "" {
 			trouble = o.trouble
@@ -317,12 +384,107 @@ func BatchMain(self, verifDir string, p *Prop, tier string) int {
 		fmt.Fprintf(os.Stderr, "HARNESS-TROUBLE property=%s %s\n", p.ID, trouble)
 		return 2
 	}
-	_ = died
-	if len(results) != n {
-		fmt.Fprintf(os.Stderr, "HARNESS-TROUBLE property=%s expected %d results, got %d\n", p.ID, n, len(results))
-		return 2
+	// runs during which the worker process died: judged by the property; the rest
+	// of the dead worker's shard is executed by fresh workers
+	var deaths []death
+	for round := 0; len(died) > 0 && round < 3; round++ {
+		deaths = append(deaths, died...)
+		have := map[int]bool{}
+		for _, r := range results {
+			have[r.Idx] = true
+		}
+		for _, d := range deaths {
+			have[d.idx] = true
+		}
+		lists := make([][]int, nw)
+		missing := 0
+		for i := 0; i < n; i++ {
+			if !have[i] {
+				lists[i%nw] = append(lists[i%nw], i)
+				missing++
+			}
+		}
+		if missing == 0 {
+			died = nil
+			break
+		}
+		more, d2, tr := runWorkers(self, p, tier, seed, nw, lists)
+		if tr != "" {
+			fmt.Fprintf(os.Stderr, "HARNESS-TROUBLE property=%s %s\n", p.ID, tr)
+			return 2
+		}
+		results = append(results, more...)
+		died = d2
 	}
-
+	if len(died) > 0 {
+		deaths = append(deaths, died...)
+	}
+	sort.Slice(results, func(i, j int) bool { return results[i].Idx < results[j].Idx })
+	deathExit := 0
+	knownDeaths := loadKnown(verifDir)
+	seenDeathSig := map[string]bool{}
+	for _, d := range deaths {
+		sig := ""
+		if p.DeathSig != nil {
+			sig = p.DeathSig(d.tail, d.hung)
+		}
+		if sig == "" {
+			fmt.Fprintf(os.Stderr, "HARNESS-TROUBLE property=%s worker died in run %d (hung=%v):\n%s\n", p.ID, d.idx, d.hung, lastLines(d.tail, 30))
+			return 2
+		}
+		sig = p.ID + ":" + sig
+		if seenDeathSig[sig] {
+			continue
+		}
+		seenDeathSig[sig] = true
+		// confirm in a fresh process
+		confirm := exec.Command(self, "one", p.ID, tier, strconv.FormatUint(seed, 10), strconv.Itoa(d.idx))
+		done := make(chan error, 1)
+		confirm.Start()
+		go func() { done <- confirm.Wait() }()
+		var cerr error
+		select {
+		case cerr = <-done:
+		case <-time.After(time.Duration(max(p.MaxRunSecs, 60)) * time.Second):
+			confirm.Process.Kill()
+			cerr = fmt.Errorf("hung")
+		}
+		if cerr == nil {
+			fmt.Fprintf(os.Stderr, "HARNESS-TROUBLE property=%s run %d killed its worker but completes in a fresh process\n", p.ID, d.idx)
+			return 2
+		}
+		rf := &ReplayFile{Property: p.ID, Engine: p.Engine, Tier: tier, Seed: seed, Run: d.idx, FromSeed: true, Signature: sig,
+			Violation: &Violation{Kind: "process-death", Sig: sig, Msg: "the process running the system under test died or hung: " + lastLines(d.tail, 6)}, Env: EnvInfo(),
+			Log: strings.Split(lastLines(d.tail, 60), "\n")}
+		dir := filepath.Join(verifDir, "replays", p.ID)
+		os.MkdirAll(dir, 0o755)
+		name := sanitizeRe.ReplaceAllString(strings.TrimPrefix(sig, p.ID+":"), "_")
+		path := filepath.Join(dir, name+".json")
+		b, _ := json.MarshalIndent(rf, "", " ")
+		os.WriteFile(path, b, 0o644)
+		isKnown := false
+		for _, f := range knownDeaths.Findings {
+			if f.Property == p.ID && f.Signature == sig {
+				isKnown = true
+				fmt.Printf("KNOWN-FINDING: property=%s %s (signature %s)\n", p.ID, f.What, sig)
+			}
+		}
+		if !isKnown {
+			fmt.Printf("VIOLATION property=%s replay=%s\n  signature: %s\n  process-death in run %d: %s\n", p.ID, path, sig, d.idx, lastLines(d.tail, 3))
+			deathExit = 1
+		}
+	}
+	if len(results)+len(deaths) < n {
+		if deathExit == 0 {
+			fmt.Fprintf(os.Stderr, "HARNESS-TROUBLE property=%s expected %d results, got %d (+%d deaths)\n", p.ID, n, len(results), len(deaths))
+			return 2
+		}
+		fmt.Printf("note: %d runs killed their worker process; %d of %d runs completed\n", len(deaths), len(results), n)
+	}
+	if len(results) == 0 {
+		return deathExit
+	}
+	n = len(results)
 	// determinism sample: re-execute ~2% (at least 2) of the runs in other processes
 	var recheck []int
 	for i := 0; i < n; i++ {
@@ -393,7 +555,8 @@ func BatchMain(self, verifDir string, p *Prop, tier string) int {
 
 	// violations: minimise, write replay, classify
 	known := loadKnown(verifDir)
-	exit := 0
+	exit := deathExit
+	hungInProcess := false
 	var knownSeen []string
 	nviol := 0
 	if len(sigs) > 0 {
@@ -413,10 +576,21 @@ func BatchMain(self, verifDir string, p *Prop, tier string) int {
 			shrunk := 0
 			if k < 8 {
 				test := func(cand []uint32) (bool, []uint32) {
-					res, c := Execute(p.ID, tier, r.Idx, NewReplay(cand), env, nil, p.Fn, 0)
+					if hungInProcess {
+						return false, nil
+					}
+					res, c, ok := ExecuteTimeout(max(p.MaxRunSecs, 60), p.ID, tier, r.Idx, NewReplay(cand), env, nil, p.Fn, 0)
+					if !ok {
+						hungInProcess = true
+						return false, nil
+					}
 					return res.Viol != nil && res.Viol.Sig == sig && res.Trouble == "", c.Src.Rec
 				}
 				choices, shrunk = Shrink(choices, test, 400, budgetEach)
+			}
+			if hungInProcess {
+				fmt.Fprintf(os.Stderr, "HARNESS-TROUBLE property=%s a re-execution of run %d hung in the batch process (violation %q was reported by the worker: %s)\n", p.ID, r.Idx, sig, r.Viol.Msg)
+				os.Exit(2)
 			}
 			final, _ := Execute(p.ID, tier, r.Idx, NewReplay(choices), env, nil, p.Fn, 2000)
 			if final.Viol == nil || final.Viol.Sig != sig {
@@ -572,6 +746,30 @@ func ReplayMain(path string) int {
 		fmt.Fprintf(os.Stderr, "unknown property %q\n", rf.Property)
 		return 2
 	}
+	if rf.FromSeed {
+		// a run that kills its process: replay it in a child and observe the death
+		self, _ := os.Executable()
+		cmd := exec.Command(self, "one", p.ID, rf.Tier, strconv.FormatUint(rf.Seed, 10), strconv.Itoa(rf.Run))
+		tb := &tailBuf{}
+		cmd.Stderr = tb
+		done := make(chan error, 1)
+		cmd.Start()
+		go func() { done <- cmd.Wait() }()
+		var err error
+		select {
+		case err = <-done:
+		case <-time.After(time.Duration(max(p.MaxRunSecs, 60)) * time.Second):
+			cmd.Process.Kill()
+			err = fmt.Errorf("hung")
+		}
+		if err == nil {
+			fmt.Printf("replay of %s: the run completes (property held on this tree)\n", path)
+			return 0
+		}
+		fmt.Println(lastLines(string(tb.buf), 25))
+		fmt.Printf("VIOLATION property=%s replay=%s\n  signature: %s\n  process death reproduced: %v\n", p.ID, path, rf.Signature, err)
+		return 1
+	}
 	env, closer, err := p.NewEnv(rf.Tier)
 	if err != nil {
 		fmt.Fprintln(os.Stderr, err)
@@ -641,4 +839,12 @@ func DetTest(self string, p *Prop, tier string, n int) int {
 		return 2
 	}
 	return 0
+}
+
+func lastLines(s string, n int) string {
+	lines := strings.Split(strings.TrimRight(s, "\n"), "\n")
+	if len(lines) > n {
+		lines = lines[len(lines)-n:]
+	}
+	return strings.Join(lines, "\n")
 }
